@@ -11,6 +11,26 @@ CHECKS = {
         ref="§3.1, §6 C01",
         note="Trusts Coq kernel+VM, the hand transcription of util.go:42-50,74-87 (tied by the draw correspondence family incl. chunked reads, faults and forced rejections), extraction (ExtrOcamlBasic only), harness and orchestrator. No axioms.",
         technique="Coq proof by induction/counting over N (modulus as section variable) + differential correspondence + exhaustive 2^32 sweep oracle"),
+    "C02": dict(
+        text="Theorems for every recipe, budget and candidate string: one attempt is exactly (1/a)^L on the strings over the duplicate-free alphabet and 0 elsewhere; the generator returns every satisfying string with one and the same probability q=(1/a)^L*(1+f+..+f^(T-1)) and every other string with probability 0 (whole-candidate redraw); the ideal distribution is the unique solution of the first-step equations with the raw 32-bit word counts of C01; alphabet order is irrelevant. The gen term the theorems are about is the one the tape interpreter runs in the correspondence check.",
+        ref="§3, §6 C02",
+        note="Trusts kernel+VM, hand model of buildCharacterList/requireFilter/Generate (tied by the chargen correspondence family under the canonical-alphabet hook), extraction, harness. Domain: valid UTF-8 recipe strings; alphabets < 2^32. The sentence 'output probability under i.i.d. uniform bytes obeys first-step analysis' is the only informal step (DESIGN §3.3). No axioms.",
+        technique="Coq proof (expectation monad, retry geometric factor, counting over strings_over) + differential correspondence + complete index-cell enumeration oracle"),
+    "C03": dict(
+        text="Theorems for all recipes and all raw-word streams: a returned password satisfies the recipe (length, allowed, not excluded, every live required family hit); the alphabet is exactly the allowed-and-not-excluded characters, sorted, duplicate-free, canonical, and every listed character is drawn.",
+        ref="§6 C03",
+        note="Trusts kernel+VM, hand model of the set algebra (tied by chargen and recipe/Alphabet() correspondence families incl. flag triples), extraction, harness. Domain: valid UTF-8 recipe strings. No axioms.",
+        technique="Coq proof (set algebra on duplicate-free lists, support of the gen monad) + differential correspondence + independent Python oracle on real outputs"),
+    "C07": dict(
+        text="Theorem count_code_correct for every alphabet, every family of required sets (arbitrary overlaps, any number) and every length: the repaired counting recursion returns exactly the number of distinct satisfying strings; the integer behind Entropy() is that count on both code paths; never negative; zero iff unsatisfiable. The float tail (log2, float32) is compared with a 2-ulp tolerance against the exact integer exported by the verif hook.",
+        ref="§6 C07, §8 F1",
+        note="Trusts kernel+VM, the model of n() (tied by the recipe correspondence family on exact integers up to length 3000), Python big-integer log2, the float tolerance. Float rounding itself is outside the proof. No axioms.",
+        technique="Coq proof by induction on the required-set list (filter/product commutation) + exact-integer differential correspondence + brute-force/inclusion-exclusion oracle"),
+    "C13": dict(
+        text="Theorems: the exact decision structure of Generate (bad length, empty alphabet, pre-flight refusal, at most MaxTrials attempts); every reachable outcome is a satisfying password or one of four errors with its exact cause, never a generator panic; SuccessProbability's exact value is the satisfying fraction count/a^L; the guard band of the default budget (>= 1/10 never refused, <= 9/100 always) and equality of the fast and exact decisions; wordlist recipes: missing/empty list and bad length give errors (see C05/C13wl theorems).",
+        ref="§6 C13, §8 F1/F5",
+        note="Trusts kernel+VM, hand model (tied by chargen/wlgen families with budgets, zero-valued recipes, exhaustion and last-attempt tapes), exact-rational vs float64 decision compared except within 0.5% of the threshold (counted as borderline). No axioms.",
+        technique="Coq proof (case analysis of the generator term, big-integer guard band by vm_compute facts) + differential correspondence + exact-arithmetic decision oracle"),
 }
 PENDING = {}
 
